@@ -148,7 +148,7 @@ theorem memrchrLoop_absent (m : Mem) (d : Byte) (l : List Byte) (s : Nat) (hl : 
     have e : s + (k + 1) - 1 = s + k := by omega
     simp only [memrchrLoop, e, rd_eq, h1]
     cases hx : l[k]? with
-    | none => simp [List.getElem?_eq_none_iff] at hx; omega
+    | none => simp at hx; omega
     | some x =>
       have : ¬ x = d := by intro e; subst e; exact h2 hx
       simp [this, ih (by omega) (fun i hi => hd i (by omega))]
@@ -171,7 +171,7 @@ theorem memrchrLoop_found (m : Mem) (d : Byte) (l : List Byte) (s : Nat) (hl : H
     rw [show s + (j + 1 + k + 1) - 1 = s + (j + 1 + k) by omega]
     simp only [rd_eq, h1]
     cases hx : l[j + 1 + k]? with
-    | none => simp [List.getElem?_eq_none_iff] at hx; omega
+    | none => simp at hx; omega
     | some x =>
       have : ¬ x = d := by intro e; subst e; exact h2 hx
       simp [this, ih (by omega) (fun i hi hi' => hd i hi (by omega))]
